@@ -156,6 +156,14 @@ impl GenerationPass for AvailableValuePass {
                 if node.calls_to().is_some() {
                     out_reg_n -= Register::return_addr_set().iter();
                 }
+                if node.is_ecall() {
+                    // The environment overwrites its result registers (a0 and
+                    // a1 when the call is not known)
+                    let results = node
+                        .known_ecall_signature()
+                        .map_or(Register::program_args_set(), |(_, rets)| rets);
+                    out_reg_n -= results.iter();
+                }
                 if let Some((reg, reg_value)) = node.gen_reg_value() {
                     out_reg_n.insert(reg, reg_value);
                 }
